@@ -252,6 +252,7 @@ def run(res: Results, idx: Index, tier: str) -> None:
     rule_d(res, idx)
     rule_e(res, idx)
     rule_f(res, idx)
+    rule_g(res, idx)
     vf = idx.func(PS, "FunctionPlugin._value_fingerprint")
     key = f"{PS}::FunctionPlugin._value_fingerprint::content"
     rets = [r for r in walk_no_nested(vf.node) if isinstance(r, ast.Return) and isinstance(r.value, ast.Tuple)]
@@ -459,3 +460,58 @@ def rule_f(res: Results, idx: Index) -> None:
                 got = sorted({x.attr for x in ast.walk(lp) if isinstance(x, ast.Attribute) and isinstance(x.value, ast.Name) and x.value.id == ev})
                 res.ok("R-C07f", f"{FS}:{lp.lineno}", key, f"formal parameter built from {got} of the argument only", f.qualname)
     res.analysed["formal_parameter_loops"] = n
+
+
+# ---------------------------------------------------------------------------------------------- R-C07g
+def rule_g(res: Results, idx: Index) -> None:
+    """The body of an @onnx_function is re-traced from specifications built out of the call site's avals (once for the
+    abstract evaluation, once for the body lowering).  A Python scalar argument (`f(x_f16, 2.0)`) is a WEAKLY typed
+    float32 at the call site; a specification that copies shape and dtype but not `weak_type` re-traces the body with a
+    strong float32 and the function returns float32 where the undecorated callable (and JAX) return float16.  Every
+    `jax.ShapeDtypeStruct(...)` the function plugin builds from an aval must pass that aval's weak_type."""
+    res.rule("R-C07g", "specifications the function plugin re-traces a body with carry the weak_type of the aval they are built from", floor=3)
+    n = 0
+    m = idx.module(PS)
+    for fi in m.funcs.values():
+        if not (fi.qualname.startswith("FunctionPlugin.") or ".FunctionPlugin." in fi.qualname):
+            continue
+        for c in walk_no_nested(fi.node):
+            if not (isinstance(c, ast.Call) and (call_name(c) or "").endswith("ShapeDtypeStruct") and len(c.args) >= 2):
+                continue
+            du = defuse(fi.node)
+
+            def dtype_sources(e: ast.AST, line: int, depth: int = 0) -> List[ast.AST]:
+                # the dtype expression and, for names, the bindings that reach this line (every binding before it that is
+                # not overwritten unconditionally is approximated by: all bindings between the last two distinct ones)
+                out = [e]
+                if depth > 3:
+                    return out
+                for x in ast.walk(e):
+                    if isinstance(x, ast.Name):
+                        ds = [d for d in du.defs.get(x.id, []) if d.value is not None and getattr(d.stmt, "lineno", 0) < line]
+                        if ds:
+                            last = max(getattr(d.stmt, "lineno", 0) for d in ds)
+                            # bindings in sibling branches of one if/else sit close together: take those within the same enclosing If as the last one
+                            lastd = next(d for d in ds if getattr(d.stmt, "lineno", 0) == last)
+                            anc = [p_ for p_ in parents(lastd.stmt) if isinstance(p_, ast.If)]
+                            grp = [d for d in ds if d is lastd or (anc and any(anc[0] is q for q in parents(d.stmt)))]
+                            for d in grp:
+                                out += dtype_sources(d.value, getattr(d.stmt, "lineno", 0), depth + 1)
+                return out
+            srcs = dtype_sources(c.args[1], c.lineno)
+            from_aval = any((isinstance(x, ast.Name) and "aval" in x.id.lower()) or (isinstance(x, ast.Attribute) and x.attr == "dtype" and isinstance(x.value, ast.Name) and x.value.id in ("arg", "a", "av", "aval"))
+                            for e in srcs for x in ast.walk(e))
+            if not from_aval:
+                continue
+            n += 1
+            key = f"{PS}::{fi.qualname}::spec#{sum(1 for x in walk_no_nested(fi.node) if isinstance(x, ast.Call) and (call_name(x) or '').endswith('ShapeDtypeStruct') and x.lineno < c.lineno)}"
+            site = f"{PS}:{c.lineno}"
+            wk = next((k.value for k in c.keywords if k.arg == "weak_type"), None)
+            if wk is None:
+                res.violation("R-C07g", site, key, f"`{src(c, 70)}` copies shape and dtype of the call-site aval but not its weak_type: a Python scalar argument is re-traced as a strong float32 / int32, "
+                              "so the function's result dtype differs from the undecorated callable's (f(x_f16, 2.0): float32 instead of float16)", fi.qualname)
+            elif isinstance(wk, ast.Constant):
+                res.violation("R-C07g", site, key, f"weak_type is the constant {wk.value!r}, not the aval's", fi.qualname)
+            else:
+                res.ok("R-C07g", site, key, f"weak_type=`{src(wk, 50)}`", fi.qualname)
+    res.analysed["function_plugin_specs"] = n
